@@ -20,6 +20,7 @@ package cat
 
 import (
 	"errors"
+	"fmt"
 	"io"
 	"io/ioutil"
 
@@ -44,10 +45,15 @@ func init() {
 	signers.Register(CatSigner)
 }
 
+// catalogs are read into memory: bound what an (arbitrarily expanding) upload can make the server allocate
+const maxInputSize = 256 * 1024 * 1024
+
 func sign(r io.Reader, cert *certloader.Certificate, opts signers.SignOpts) ([]byte, error) {
-	blob, err := ioutil.ReadAll(r)
+	blob, err := ioutil.ReadAll(io.LimitReader(r, maxInputSize+1))
 	if err != nil {
 		return nil, err
+	} else if len(blob) > maxInputSize {
+		return nil, fmt.Errorf("catalog exceeds %d bytes", maxInputSize)
 	}
 	oldpsd, err := pkcs7.Unmarshal(blob)
 	if err != nil {
